@@ -574,10 +574,15 @@ def run(case):
                     smax = min(20.0, DOM_ELL_LEN * 0.98 / scale)
                     sx = float(rng.uniform(min(1.0, smax), smax))
                     sy = sx * float(rng.uniform(0.2, 1.0))
+                    if i % 5 == 0:
+                        sy = sx                 # exactly circular (BMAJ == BMIN is the commonest beam there is)
                     te = _angle(rng)
                     e = w.pix2sky_ellipse((x, y), sx, sy, te)
                     a = float(rng.uniform(min(1.0, smax), smax)) * min(abs(case['cdelt'][0]), abs(case['cdelt'][1]))
                     b = a * float(rng.uniform(0.2, 1.0))
+                    if i % 5 == 1 or i % 5 == 0:
+                        b = a                   # exactly circular on the sky
+                        o.count('exactly_circular_ellipses')
                     pe = _angle(rng)
                     e2 = w.sky2pix_ellipse((ra, dec), a, b, pe)
                     rows_in.append((x, y, r, th, sx, sy, te, a, b, pe))
